@@ -25,6 +25,16 @@ Tie to the code, on every run:
      at a query point is checked against ITS OWN regressor and ITS OWN incumbent (interval
      goals on a sample, definition by quadrature on all), operations on one optimiser must
      leave the others bit-for-bit as they were.
+ (e) [interval goals + vm_compute + R] UNITS and ELEMENT TYPES (Properties/C18Scale.v):
+     regressors fitted to the same kind of objective in other units (y-values of order
+     1e-11 .. 1e6: every run has one with predictive sigma far below 1e-9, one in between, one
+     with sigma far above 1) -- the same goals as in (a), whose tolerances are all relative;
+     worlds and lives of the optimiser in those units; lives whose initial data arrive as
+     int64 / int32 / int16 arrays, lists / tuples of Python ints or float32 arrays and whose
+     evaluations are added as float64 arrays, Python floats, tuples, numpy scalars, float32 /
+     int64 arrays, Python ints or the proposal object: after every addition the arrays'
+     dtypes and data equal Model.OptimiserTyped.typed_add_all (numpy's promoted type, the
+     point exactly as given), and [R] the stored / re-fitted evaluation is the one that was made.
  Configuration values (a): UpperConfidenceBound is built with kappa omitted / 0 / 0.0 /
      int / numpy scalar / positional / small / large: the goal is ucb_call (ucb_kappa arg).
 Property oracle (when something disagrees, and on a sample of agreeing points):
@@ -66,6 +76,12 @@ From Coquelicot Require Import Coquelicot.
 From Interval Require Import Tactic.
 From IT Require Import RealModel.Acquisition Proofs.AcquisitionProofs RealModel.AcquisitionConfig.
 Open Scope R_scope.
+"""
+
+TYPED_HEADER = """From Coq Require Import List QArith.
+From IT Require Import Model.Optimiser Model.OptimiserTyped.
+Import ListNotations.
+Open Scope Q_scope.
 """
 
 CASE_HEADER = """From Coq Require Import List QArith.
@@ -213,7 +229,7 @@ def simple_goal(gid, model, val, scale):
     return (gid, f"Rabs ({model} - {C.cR(v)}) <= {C.cR(tol)}", "unfold ucb_call, ucb_opt_func, ucb_opt_grad, ucb_kappa, mv_call, mv_opt_func, mv_opt_grad. interval with (i_prec 120)")
 
 
-def acquisition_points(rep, tier):
+def acquisition_points(rep, tier, scaled=None):
     """Runs the implementation; returns (records, goals)."""
     _, _, EI, UCB, MV = impl()
     r = C.rng_for(PROP, "acq")
@@ -354,7 +370,182 @@ def acquisition_points(rep, tier):
                         for c in range(d):
                             goals.append(simple_goal(f"{k}_grad{c}", f"mv_opt_grad {C.cR(dvar[c])}",
                                                      fg[c], abs(dvar[c])))
+    if scaled is not None:
+        scaled_points(rep, tier, recs, goals, scaled)
     return recs, goals
+
+
+# ---- the same objective in other UNITS: y-values of order 1e-11 .. 1e6 -------------------
+# (Properties/C18Scale.v: C18_units_covariance -- the formulas hold at every scale alike;
+# C18_sigma_floor_refuted -- an absolute floor / tolerance on sigma does not).  Every run has
+# at least one regressor whose predictive sigma is far below 1e-9, one in between and one
+# with sigma far above 1.
+Y_SCALES_TINY = [1e-11, 1e-10, 3e-10]
+Y_SCALES_SMALL = [1e-8, 1e-6, 1e-4]
+Y_SCALES_LARGE = [1e3, 1e6]
+Z_SCALED_TAIL = [-5.0, -4.0, -3.5, -3.0 - 1e-7]
+Z_SCALED_ORD = [-3.0 + 1e-7, -2.5, -1.0, 0.0, 0.5, 2.0]
+
+
+def _fit_theta(job):
+    """Pool worker: hyper-parameters of a GpRegressor fitted to (x, y)."""
+    x, y, seed, optimizer = job
+    try:
+        _, GpRegressor, *_ = impl()
+        np.random.seed(seed)
+        with warnings.catch_warnings():
+            warnings.simplefilter("ignore")
+            gp0 = GpRegressor(np.array(x), np.array(y), optimizer=optimizer)
+        return {"theta": np.array(gp0.hyperpars, dtype=float).tolist()}
+    except Exception as e:
+        return {"error": repr(e)}
+
+
+def scaled_setup(tier, pool):
+    """The regressors of scaled_points: data generated here, the hyper-parameter fits run in the
+    pool while the other points are evaluated."""
+    r = C.rng_for(PROP, "acq-scale")
+    if tier == "quick":
+        plan = [(r.choice(Y_SCALES_TINY), r.choice([1, 2])), (r.choice(Y_SCALES_SMALL), r.choice([1, 2, 3])),
+                (r.choice(Y_SCALES_LARGE), r.choice([1, 2]))]
+    else:
+        allsc = Y_SCALES_TINY + Y_SCALES_SMALL + Y_SCALES_LARGE
+        plan = [(s_, 1 + (i + k) % 3) for i, s_ in enumerate(allsc) for k in (0, 1)]
+    jobs = []
+    for g, (scale, d) in enumerate(plan):
+        n = r.randint(4, 7)
+        x = [[r.uniform(-2, 2) for _ in range(d)] for _ in range(n)]
+        w = [r.uniform(0.5, 1.5) for _ in range(d)]
+        y = [scale * (math.sin(sum(wi * xi for wi, xi in zip(w, row))) + 0.3 * row[0]) for row in x]
+        fut = pool.submit(_fit_theta, (x, y, C.seed() * 1000 + 500 + g, r.choice(["diffev", "bfgs"])))
+        jobs.append((scale, d, x, y, fut))
+    return {"r": r, "jobs": jobs, "n_pts": 2 if tier == "quick" else 3}
+
+
+def scaled_points(rep, tier, recs, goals, setup):
+    """EI / UCB / MaxVariance on regressors fitted to y-values of order `scale`; the goals are
+    the same statements as at scale 1 (relative tolerances; no constant in them has the
+    dimension of y)."""
+    _, GpRegressor, EI, UCB, MV = impl()
+    r, n_pts = setup["r"], setup["n_pts"]
+    ki = r.randrange(len(KAPPA_ARGS))
+    for g, (scale, d, xl, yl, fut) in enumerate(setup["jobs"]):
+        fit = fut.result()
+        X, Y = np.array(xl), np.array(yl)
+        try:
+            if "error" in fit:
+                raise RuntimeError(fit["error"])
+            theta = np.array(fit["theta"], dtype=float)
+            with warnings.catch_warnings():
+                warnings.simplefilter("ignore")
+                gp = GpRegressor(X, Y, hyperpars=theta)
+        except Exception as e:
+            recs.append({"acq": "EI", "d": d, "yscale": scale, "error": "GpRegressor could not be fitted to y-values "
+                         f"of order {scale:g}: {e!r}", "x": [], "train_x": X.tolist(), "train_y": Y.tolist(), "theta": []})
+            continue
+        ei, mv = EI(), MV()
+        for a in (ei, mv):
+            a.update_gp(gp)
+        natural_max = float(ei.mu_max)
+        rep.count(f"scaled regressor y-scale={scale:g} d={d}")
+        done = 0
+        for attempt in range(4 * n_pts):
+            if done >= n_pts:
+                break
+            x = np.array([r.uniform(-2.5, 2.5) for _ in range(d)])
+            mu_a, sig_a = gp(x)
+            mu, sig = float(mu_a[0]), float(sig_a[0])
+            if not (sig > 1e-6 * scale):
+                continue
+            kkind, kval = KAPPA_ARGS[ki % len(KAPPA_ARGS)]
+            ki += 1
+            kappa = kappa_expected(kkind, kval)
+            ucb = make_ucb(kkind, kval)
+            ucb.update_gp(gp)
+            dmu_a, dvar_a = gp.spatial_derivatives(x)
+            dmu = np.atleast_1d(np.asarray(dmu_a, dtype=float))
+            dvar = np.atleast_1d(np.asarray(dvar_a, dtype=float))
+            base = {"d": d, "x": x.tolist(), "train_x": X.tolist(), "train_y": Y.tolist(),
+                    "theta": theta.tolist(), "mu": mu, "sig": sig, "yscale": scale,
+                    "dmu": dmu.tolist(), "dvar": dvar.tolist()}
+            # incumbent: tail target, ordinary target, then the natural one (steered into reach)
+            if done % 3 == 0:
+                zt, steer = r.choice(Z_SCALED_TAIL), "steered"
+                ymax = mu - zt * sig
+            elif done % 3 == 1:
+                zt, steer = r.choice(Z_SCALED_ORD), "steered"
+                ymax = mu - zt * sig
+            else:
+                ymax, steer = natural_max, "natural"
+                if not (-6.0 <= (mu - ymax) / sig <= 6.0):
+                    ymax, steer = mu - r.uniform(-4, 2) * sig, "natural-out-of-reach->steered"
+            done += 1
+            ei.mu_max = ymax
+            Zc = (mu - ymax) / sig
+            try:
+                with warnings.catch_warnings():
+                    warnings.simplefilter("ignore")
+                    v_call = float(ei(x))
+                    v_opt = float(ei.opt_func(x))
+                    fv, fg = ei.opt_func_gradient(x)
+                    fv = float(fv)
+                    fg = np.atleast_1d(np.asarray(fg, dtype=float))
+                rec = dict(base, acq="EI", ymax=ymax, z=Zc, steer=steer, call=v_call, opt=v_opt,
+                           optg_val=fv, grad=fg.tolist())
+            except Exception as e:
+                rec = dict(base, acq="EI", ymax=ymax, z=Zc, error=repr(e))
+            k = len(recs)
+            recs.append(rec)
+            rep.count("EI branch=" + ("tail" if Zc < -3 else "ordinary") + " (scaled)")
+            rep.count(f"EI y-scale={scale:g}")
+            rep.count("EI sigma<1e-9" if sig < 1e-9 else ("EI sigma>1" if sig > 1 else "EI sigma in [1e-9,1]"))
+            rep.case(("EI", x.tolist(), ymax, theta.tolist(), scale))
+            if "error" not in rec:
+                if not all(map(math.isfinite, [v_call, v_opt, fv] + fg.tolist())) or fg.shape != (d,):
+                    rec["error"] = f"non-finite or mis-shaped output {v_call, v_opt, fv, fg}"
+                else:
+                    goals.append(ei_goal("call", f"{k}_call", mu, sig, ymax, v_call))
+                    goals.append(ei_goal("opt", f"{k}_opt", mu, sig, ymax, v_opt))
+                    goals.append(ei_goal("opt", f"{k}_optg", mu, sig, ymax, fv))
+                    for c in range(d):
+                        goals.append(ei_goal("grad", f"{k}_grad{c}", mu, sig, ymax, fg[c], dmu[c], dvar[c]))
+                    if done == 1:
+                        rec["want_definition"] = True      # the goal is made in run()
+            for name, a in (("UCB", ucb), ("MV", mv)):
+                try:
+                    v_call = float(a(x))
+                    v_opt = float(a.opt_func(x))
+                    fv, fg = a.opt_func_gradient(x)
+                    fv = float(np.asarray(fv).reshape(-1)[0]) if np.asarray(fv).size == 1 else None
+                    fg = np.atleast_1d(np.asarray(fg, dtype=float))
+                    rec = dict(base, acq=name, kappa=kappa, kappa_kind=kkind, kappa_arg=kval,
+                               call=v_call, opt=v_opt, optg_val=fv, grad=fg.tolist())
+                except Exception as e:
+                    rec = dict(base, acq=name, kappa=kappa, kappa_kind=kkind, kappa_arg=kval, error=repr(e))
+                k = len(recs)
+                recs.append(rec)
+                rep.case((name, x.tolist(), kkind, kval, theta.tolist(), scale))
+                if "error" in rec:
+                    continue
+                if fv is None or fg.shape != (d,) or not all(map(math.isfinite, [v_call, v_opt, fv] + fg.tolist())):
+                    rec["error"] = "non-finite or mis-shaped output"
+                    continue
+                m, s, kq = C.cR(mu), C.cR(sig), kappa_model(kkind, kval)
+                if name == "UCB":
+                    sc = abs(mu) + abs(kappa * sig)
+                    goals.append(simple_goal(f"{k}_call", f"ucb_call {kq} {m} {s}", v_call, sc))
+                    goals.append(simple_goal(f"{k}_opt", f"ucb_opt_func {kq} {m} {s}", v_opt, sc))
+                    goals.append(simple_goal(f"{k}_optg", f"ucb_opt_func {kq} {m} {s}", fv, sc))
+                    for c in range(d):
+                        sc2 = abs(dmu[c]) + abs(0.5 * kappa * dvar[c] / sig)
+                        goals.append(simple_goal(f"{k}_grad{c}",
+                                                 f"ucb_opt_grad {kq} {s} {C.cR(dmu[c])} {C.cR(dvar[c])}", fg[c], sc2))
+                else:
+                    goals.append(simple_goal(f"{k}_call", f"mv_call {s}", v_call, sig * sig))
+                    goals.append(simple_goal(f"{k}_opt", f"mv_opt_func {s}", v_opt, sig * sig))
+                    goals.append(simple_goal(f"{k}_optg", f"mv_opt_func {s}", fv, sig * sig))
+                    for c in range(d):
+                        goals.append(simple_goal(f"{k}_grad{c}", f"mv_opt_grad {C.cR(dvar[c])}", fg[c], abs(dvar[c])))
 
 
 def rebuild_acq(rec):
@@ -392,10 +583,13 @@ def acq_oracle(rec):
         fv, fg = a.opt_func_gradient(x)
     fv = float(np.asarray(fv).reshape(-1)[0])
     fg = np.atleast_1d(np.asarray(fg, dtype=float))
+    ysc0 = float(rec.get("yscale", 1.0))
     if rec["acq"] == "EI":
         ref = definition_quad(mu, sig, rec["ymax"])
         if not (abs(v - ref) <= 1e-6 * abs(ref)):
-            bad.append(f"EI(x) = {v!r} but E max(f - ymax, 0) = {ref!r} (z = {(mu - rec['ymax']) / sig:.6g})")
+            bad.append(f"EI(x) = {v!r} but E max(f - ymax, 0) = {ref!r} (z = {(mu - rec['ymax']) / sig:.6g}, "
+                       f"mu = {mu!r}, sigma = {sig!r}, ymax = {rec['ymax']!r}"
+                       + (f", y-values of order {ysc0:g}" if ysc0 != 1.0 else "") + ")")
         if ref > 0 and not (abs(o + math.log(ref)) <= 1e-6 * max(1, abs(o))):
             bad.append(f"opt_func(x) = {o!r} but -ln E max(f - ymax, 0) = {-math.log(ref)!r}")
     elif rec["acq"] == "UCB":
@@ -411,7 +605,10 @@ def acq_oracle(rec):
             bad.append(f"MaxVariance(x) = {v!r} but sigma^2 = {sig * sig!r}")
         if not (abs(o + sig * sig) <= 1e-9 * sig * sig):
             bad.append(f"MaxVariance opt_func(x) = {o!r} but -sigma^2 = {-sig * sig!r}")
-    if not (abs(fv - o) <= 1e-9 * max(1, abs(o))):
+    # the unit of the objective: ln EI is dimensionless, UCB has the unit of y, MaxVariance y^2
+    ysc = float(rec.get("yscale", 1.0))
+    unit = 1.0 if rec["acq"] == "EI" else (ysc if rec["acq"] == "UCB" else ysc * ysc)
+    if not (abs(fv - o) <= 1e-9 * max(unit, abs(o))):
         bad.append(f"opt_func_gradient value {fv!r} differs from opt_func {o!r}")
     # central differences of the implementation's own objective
     d = len(x)
@@ -424,7 +621,7 @@ def acq_oracle(rec):
             cd = (float(a.opt_func(x + e)) - float(a.opt_func(x - e))) / (2 * hs)
             cd2 = (float(a.opt_func(x + e / 2)) - float(a.opt_func(x - e / 2))) / hs
         rich = (4 * cd2 - cd) / 3            # Richardson step; |cd - cd2| estimates the error
-        if not (abs(rich - fg[c]) <= 1e-3 * abs(fg[c]) + 4 * abs(cd - cd2) + 1e-6 * (1 + np.abs(fg).max())):
+        if not (abs(rich - fg[c]) <= 1e-3 * abs(fg[c]) + 4 * abs(cd - cd2) + 1e-6 * (unit + np.abs(fg).max())):
             bad.append(f"gradient[{c}] = {fg[c]!r} but central differences of opt_func give {rich!r}")
     return bad
 
@@ -573,23 +770,58 @@ def run_sequence(cfg):
         r = _random.Random(cfg["seed"])
         np.random.seed(cfg["seed"] % (2 ** 31))
         d = cfg["d"]
-        bounds = [(-2.0, 2.0 + 0.5 * i) for i in range(d)]
         n = 3 + d
-        rows = [[r.randint(-16, 16) / 8.0 for _ in range(d)] for _ in range(n)]
-        while len({tuple(q) for q in rows}) < n:
+        xdt = cfg.get("x_dtype", "float64")      # element type / container of the initial x-data
+        ydt = cfg.get("y_dtype", "float64")
+        ysc = float(cfg.get("y_scale", 1.0))     # unit of the objective
+        typed = "x_dtype" in cfg
+        if not typed:
+            bounds = [(-2.0, 2.0 + 0.5 * i) for i in range(d)]
             rows = [[r.randint(-16, 16) / 8.0 for _ in range(d)] for _ in range(n)]
-        yv = [objective(q) for q in rows]
-        ev = [r.choice([0.0625, 0.125, 0.25]) for _ in rows] if cfg["with_err"] else None
-        if cfg["x_kind"] == "nd1" and d == 1:
+            while len({tuple(q) for q in rows}) < n:
+                rows = [[r.randint(-16, 16) / 8.0 for _ in range(d)] for _ in range(n)]
+            yv = [objective(q) for q in rows]
+        else:
+            # a grid of initial evaluations written without decimal points (integer kinds), or
+            # float32 data; box [-8, 8 + i/2]
+            bounds = [(-8.0, 8.0 + 0.5 * i) for i in range(d)]
+            draw = (lambda: float(r.randint(-8, 8))) if xdt != "float32" else (lambda: r.randint(-64, 64) / 8.0)
+            rows = [[draw() for _ in range(d)] for _ in range(n)]
+            while len({tuple(q) for q in rows}) < n:
+                rows = [[draw() for _ in range(d)] for _ in range(n)]
+            if ydt in ("int64", "pyint"):
+                yv = [float(round(4 * objective(q))) for q in rows]
+            else:
+                yv = [objective(q) * ysc for q in rows]
+        ev = [r.choice([0.0625, 0.125, 0.25]) * ysc for _ in rows] if cfg["with_err"] else None
+        if typed and xdt in ("int64", "int32", "int16", "float32"):
+            irows = rows if xdt == "float32" else [[int(v) for v in q] for q in rows]
+            x_in = np.array(irows, dtype=xdt)
+            if cfg["x_kind"] == "nd1" and d == 1:
+                x_in = x_in.reshape(-1).copy()
+        elif typed and xdt == "pyint":
+            x_in = [[int(v) for v in q] for q in rows] if d > 1 else [int(q[0]) for q in rows]
+        elif typed and xdt == "pytuple":
+            x_in = [tuple(int(v) for v in q) for q in rows]
+        elif cfg["x_kind"] == "nd1" and d == 1:
             x_in = np.array([q[0] for q in rows])
         elif cfg["x_kind"] == "list":
             x_in = [list(q) for q in rows] if d > 1 else [q[0] for q in rows]
         else:
             x_in = np.array(rows)
-        y_in = np.array(yv) if cfg["y_kind"] == "nd" else list(yv)
+        if typed and ydt == "int64":
+            y_in = np.array([int(v) for v in yv])
+        elif typed and ydt == "pyint":
+            y_in = [int(v) for v in yv]
+        elif typed and ydt == "float32":
+            y_in = np.array(yv, dtype=np.float32)
+        else:
+            y_in = np.array(yv) if cfg["y_kind"] == "nd" else list(yv)
         e_in = None if ev is None else (np.array(ev) if cfg["y_kind"] == "nd" else list(ev))
         acq = {"EI": EI, "UCB": UCB, "MV": MV}[cfg["acq"]]
-        out["init"] = {"x": rows, "y": yv, "yerr": ev, "bounds": bounds}
+        out["init"] = {"x": rows, "y": yv, "yerr": ev, "bounds": bounds,
+                       "x_dtype": np.asarray(x_in).dtype.name, "y_dtype": np.asarray(y_in).dtype.name,
+                       "yerr_dtype": None if e_in is None else np.asarray(e_in).dtype.name}
         # the search bounds are one of the arrays the caller passes in: as a float ndarray
         # (n_dims, 2) when the data are arrays, as a list of tuples otherwise
         bounds_in = np.array(bounds, dtype=float) if cfg["y_kind"] == "nd" else list(bounds)
@@ -603,6 +835,7 @@ def run_sequence(cfg):
         out["init_changed"] = [nm for nm, b, a in zip(("x", "y", "y_err"), before, after) if a != b]
         out["init_shapes"] = [str(b[1:3]) + " -> " + str(a[1:3]) for b, a in zip(before, after) if a != b]
         last_prop = None
+        n_added = 0
         for op in cfg["ops"]:
             if op == "P":
                 with warnings.catch_warnings():
@@ -617,9 +850,47 @@ def run_sequence(cfg):
                 last_prop = p
             else:
                 kind = cfg["newx_kind"]
+                if isinstance(kind, list):            # one kind per addition
+                    kind = kind[n_added % len(kind)]
+                n_added += 1
                 if last_prop is not None and kind == "proposal":
                     nx = last_prop
                     pt = np.atleast_1d(np.asarray(nx, dtype=float)).reshape(-1).tolist()
+                elif typed:
+                    taken = {tuple(q) for q in np.asarray(G.x, dtype=float).reshape(len(G.y), -1).tolist()}
+                    if kind in ("pyint", "i64"):
+                        mk = lambda: [float(r.randint(-7, 7)) for _ in range(d)]
+                    elif kind == "f32":
+                        mk = lambda: [r.randint(-60, 60) / 8.0 + 1 / 64 for _ in range(d)]
+                    else:
+                        mk = lambda: [r.uniform(-7.5, 7.5) for _ in range(d)]      # any double
+                    pt = mk()
+                    for _ in range(50):
+                        if tuple(pt) not in taken:
+                            break
+                        pt = mk()
+                    if tuple(pt) in taken:
+                        pt = [v + 1 / 64 for v in pt]
+                        kind = "nd"
+                    if kind == "pyint":
+                        nx = [int(v) for v in pt] if d > 1 else int(pt[0])
+                    elif kind == "i64":
+                        nx = np.array([int(v) for v in pt])
+                    elif kind == "f32":
+                        nx = np.array(pt, dtype=np.float32)
+                    elif kind == "tuple":
+                        nx = tuple(pt)
+                    elif kind == "npscalar":
+                        nx = np.float64(pt[0]) if d == 1 else np.array(pt)
+                    elif kind == "view":
+                        holder = np.array([pt, pt])
+                        nx = holder[0]
+                    elif kind == "list":
+                        nx = list(pt) if d > 1 else pt[0]
+                    elif kind == "row":
+                        nx = np.array([pt])
+                    else:
+                        nx = np.array(pt)
                 else:
                     pt = [r.randint(-15, 15) / 8.0 + 1 / 64 for _ in range(d)]
                     if kind == "view":
@@ -632,14 +903,30 @@ def run_sequence(cfg):
                     else:
                         nx = np.array(pt)
                 last_prop = None
-                ny = objective(pt)
+                ykind = cfg.get("newy_kind")
+                if isinstance(ykind, list):
+                    ykind = ykind[(n_added - 1) % len(ykind)]
+                if ykind == "pyint" and ysc == 1.0:
+                    ny = float(round(4 * objective(pt)))
+                else:
+                    ny = objective(pt) * ysc
                 # the error of the new point is sometimes exactly 0.0 (valid, and falsy)
-                ne = (0.0 if r.random() < 0.25 else 0.125) if cfg["with_err"] else None
-                ny_in = np.array(ny) if cfg["y_kind"] == "nd" else ny
+                ne = (0.0 if r.random() < 0.25 else 0.125 * ysc) if cfg["with_err"] else None
+                if ykind == "pyint" and ysc == 1.0:
+                    ny_in = int(ny)
+                elif ykind == "f32" and ysc == 1.0:
+                    ny_in = np.float32(ny)
+                elif ykind == "pyfloat":
+                    ny_in = ny
+                else:
+                    ny_in = np.array(ny) if cfg["y_kind"] == "nd" else ny
                 ne_in = None if ne is None else (np.array(ne) if cfg["y_kind"] == "nd" else ne)
                 held = [G.x, G.y, G.y_err]           # the optimiser's previous arrays
                 before = [_snap(nx), _snap(ny_in), _snap(ne_in), _snap(x_in), _snap(y_in), _snap(e_in)]
-                evn = {"op": "A", "new_x": pt, "new_y": ny, "new_err": ne, "kind": kind}
+                evn = {"op": "A", "new_x": pt, "new_y": ny, "new_err": ne, "kind": kind,
+                       "new_x_dtype": np.asarray(nx).dtype.name, "new_y_dtype": np.asarray(ny_in).dtype.name,
+                       "new_err_dtype": None if ne_in is None else np.asarray(ne_in).dtype.name,
+                       "data_dtype": np.asarray(G.x).dtype.name}
                 try:
                     with warnings.catch_warnings():
                         warnings.simplefilter("ignore")
@@ -657,11 +944,18 @@ def run_sequence(cfg):
                                          and np.array_equal(np.asarray(G.gp.y, dtype=float), G.y))
                 evn["mu_max"] = float(G.acquisition.mu_max)
                 evn["opt_mu_max"] = float(G.mu_max)
+                # the evaluation as it is now stored / as the next model was fitted to it
+                evn["stored_x"] = np.asarray(G.x, dtype=float).reshape(len(G.y), -1)[-1].tolist()
+                evn["stored_y"] = float(np.asarray(G.y, dtype=float)[-1])
+                evn["fitted_x"] = np.asarray(G.gp.x, dtype=float).reshape(len(G.gp.y), -1)[-1].tolist()
+                evn["fitted_y"] = float(np.asarray(G.gp.y, dtype=float)[-1])
                 evn["state"] = {"x": np.asarray(G.x, dtype=float).reshape(len(G.y), -1).tolist(),
                                 "x_shape": list(np.asarray(G.x).shape),
                                 "y": np.asarray(G.y, dtype=float).tolist(),
                                 "yerr": None if G.y_err is None else np.asarray(G.y_err, dtype=float).tolist(),
-                                "mu_max": float(G.acquisition.mu_max)}
+                                "mu_max": float(G.acquisition.mu_max),
+                                "x_dtype": np.asarray(G.x).dtype.name, "y_dtype": np.asarray(G.y).dtype.name,
+                                "yerr_dtype": None if G.y_err is None else np.asarray(G.y_err).dtype.name}
                 out["events"].append(evn)
         out["final"] = {"x": np.asarray(G.x, dtype=float).reshape(len(G.y), -1).tolist(),
                         "x_shape": list(np.asarray(G.x).shape),
@@ -697,6 +991,78 @@ def sequence_configs(tier):
                              "newx_kind": r.choice(["proposal", "proposal", "nd", "view", "list", "row"]),
                              "seed": r.randint(1, 10 ** 9)})
     return cfgs
+
+
+X_DTYPES = ["int64", "pyint", "float32", "int32", "pytuple", "int16"]
+NEWX_FLOATY = ["nd", "list", "tuple", "npscalar", "view", "row", "proposal"]
+NEWX_ALL = NEWX_FLOATY + ["f32", "pyint", "i64", "nd", "proposal"]
+SEQ_Y_SCALES = [1.0, 1e-11, 1.0, 1e-8, 1e3, 1.0, 1e-4, 1e6]
+
+
+def dtype_sequence_configs(tier):
+    """Lives of one optimiser whose initial data arrive as integer arrays (int64 / int32 / int16),
+    lists / tuples of Python ints or float32 arrays, the evaluations added as float64 arrays,
+    Python floats, tuples, numpy scalars, float32 arrays, Python ints, int64 arrays or the object
+    propose_evaluation returned; y as float64 (also in other units), integer or float32.  Own
+    random stream: the configurations of sequence_configs are what they were."""
+    r = C.rng_for(PROP, "seq-dtype")
+    words = [w for w in all_sequences(4) if w.count("A") >= 2]
+    n = 12 if tier == "quick" else 48
+    rot, rot2 = r.randrange(len(X_DTYPES)), r.randrange(len(SEQ_Y_SCALES))
+    cfgs = []
+    for i in range(n):
+        xdt = X_DTYPES[(i + rot) % len(X_DTYPES)]
+        d = r.choice([1, 1, 2, 3])
+        ydt = r.choice(["float64", "float64", "float64", "int64", "pyint", "float32"])
+        ysc = SEQ_Y_SCALES[(i + rot2) % len(SEQ_Y_SCALES)] if ydt == "float64" else 1.0
+        kinds = [r.choice(NEWX_FLOATY)] + [r.choice(NEWX_ALL) for _ in range(3)]
+        cfgs.append({"ops": r.choice(words), "optimizer": ("bfgs", "diffev")[i % 2], "d": d,
+                     "acq": r.choice(["EI", "EI", "UCB", "MV"]), "with_err": r.random() < 0.3,
+                     "x_kind": r.choice(["nd1", "nd2"]), "y_kind": r.choice(["nd", "nd", "list"]),
+                     "x_dtype": xdt, "y_dtype": ydt, "y_scale": ysc, "newx_kind": kinds,
+                     "newy_kind": [r.choice(["pyfloat", "nd", "pyint", "f32"]) for _ in range(4)],
+                     "seed": r.randint(1, 10 ** 9)})
+    return cfgs
+
+
+DT_COQ = {"int16": "I16", "int32": "I32", "int64": "I64", "float32": "F32", "float64": "F64"}
+
+
+def typed_case_texts(res):
+    """one Model.OptimiserTyped case per prefix ending in an addition: the element types of the
+    initial arrays and of every part of every added evaluation as numpy sees the caller's
+    objects, the dtypes and the data observed afterwards.  None if a dtype is outside the model."""
+    ini = res["init"]
+    evs = res["events"]
+    names = [ini["x_dtype"], ini["y_dtype"]] + ([ini["yerr_dtype"]] if ini["yerr"] is not None else [])
+    for evn in evs:
+        if evn["op"] == "A":
+            names += [evn["new_x_dtype"], evn["new_y_dtype"]] + ([evn["new_err_dtype"]] if evn["new_err"] is not None else [])
+            if "state" in evn:
+                names += [evn["state"]["x_dtype"], evn["state"]["y_dtype"]]
+    if any(nm not in DT_COQ for nm in names):
+        return None
+    x0 = C.clist([C.clist([C.cq(v) for v in row]) for row in ini["x"]])
+    y0 = f"({DT_COQ[ini['y_dtype']]}, {C.clist([C.cq(v) for v in ini['y']])})"
+    e0 = "None" if ini["yerr"] is None else f"(Some ({DT_COQ[ini['yerr_dtype']]}, {C.clist([C.cq(v) for v in ini['yerr']])}))"
+    out, news = [], []
+    for evn in evs:
+        if evn["op"] != "A" or "exception" in evn:
+            continue
+        ne = "None" if evn["new_err"] is None else f"(Some ({DT_COQ[evn['new_err_dtype']]}, {C.cq(evn['new_err'])}))"
+        news.append(f"(mk_tnew {DT_COQ[evn['new_x_dtype']]} {C.clist([C.cq(v) for v in evn['new_x']])} "
+                    f"{DT_COQ[evn['new_y_dtype']]} {C.cq(evn['new_y'])} {ne})")
+        if "state" not in evn:
+            continue
+        fin = evn["state"]
+        fx = C.clist([C.clist([C.cq(v) for v in row]) for row in fin["x"]])
+        fy = C.clist([C.cq(v) for v in fin["y"]])
+        fe = "None" if fin["yerr"] is None else "(Some " + C.clist([C.cq(v) for v in fin["yerr"]]) + ")"
+        ode = "None" if fin["yerr"] is None or fin["yerr_dtype"] not in DT_COQ else f"(Some {DT_COQ[fin['yerr_dtype']]})"
+        obs = (f"(Some ({DT_COQ[fin['x_dtype']]}, {DT_COQ[fin['y_dtype']]}, {ode}, "
+               f"mk_state {fx} {fy} {fe} {C.cq(fin['mu_max'])}))")
+        out.append(f"({DT_COQ[ini['x_dtype']]}, {x0}, {y0}, {e0}, {C.clist(news)}, {obs})")
+    return out
 
 
 def add_case_texts(res):
@@ -755,6 +1121,16 @@ def sequence_findings(res):
                 bad.append(("C18/caller-arrays", "add_evaluation modified the caller's " + "; ".join(evn["changed"])))
             if not evn["gp_matches"]:
                 bad.append(("C18/refit", "the regressor after add_evaluation is not fitted to the grown data"))
+            # the evaluation that was added is part of the data exactly as given
+            if "stored_x" in evn:
+                how = (f"(initial x-data {res['init'].get('x_dtype')}, data were {evn.get('data_dtype')}, "
+                       f"new_x given as {evn['kind']} / {evn.get('new_x_dtype')})")
+                if evn["stored_x"] != evn["new_x"] or evn["stored_y"] != evn["new_y"]:
+                    bad.append(("C18/data", f"the evaluation y = {evn['new_y']!r} made at x = {evn['new_x']} is stored as "
+                                f"y = {evn['stored_y']!r} at x = {evn['stored_x']} {how}"))
+                elif evn["fitted_x"] != evn["new_x"] or evn["fitted_y"] != evn["new_y"]:
+                    bad.append(("C18/refit", f"the evaluation y = {evn['new_y']!r} made at x = {evn['new_x']} reaches the next "
+                                f"model as y = {evn['fitted_y']!r} at x = {evn['fitted_x']} {how}"))
             if evn["mu_max"] != evn["opt_mu_max"]:
                 bad.append(("C18/incumbent", "acquisition.mu_max differs from GpOptimiser.mu_max"))
     fin = res["final"]
@@ -801,6 +1177,7 @@ def run_world(cfg):
         classes = {"EI": EI, "UCB": UCB, "MV": MV}
         r = _random.Random(cfg["seed"])
         np.random.seed(cfg["seed"] % (2 ** 31))
+        ysc = float(cfg.get("y_scale", 1.0))     # unit of the objectives of this world
         heap = []          # acquisition objects in order of allocation (mirrors the model's heap)
         opts = []          # the optimisers in order of construction
         info = []          # per optimiser: plain data about its problem
@@ -821,10 +1198,10 @@ def run_world(cfg):
                         rows = None
                         while rows is None or len({tuple(q) for q in rows}) < n:
                             rows = [[centre + r.randint(-16, 16) / 8.0 for _ in range(d)] for _ in range(n)]
-                        yv = [_world_value(q, centre, offset) for q in rows]
+                        yv = [_world_value(q, centre, offset) * ysc for q in rows]
                         shift = max(yv) if evn["shift"] == "max0" else 0.0
                         yv = [v - shift for v in yv]
-                        ev = [r.choice([0.0625, 0.125, 0.25]) for _ in rows] if evn["with_err"] else None
+                        ev = [r.choice([0.0625, 0.125, 0.25]) * ysc for _ in rows] if evn["with_err"] else None
                         x_in = np.array([q[0] for q in rows]) if (evn["x_kind"] == "nd1" and d == 1) else np.array(rows)
                         y_in = np.array(yv)
                         e_in = None if ev is None else np.array(ev)
@@ -863,8 +1240,8 @@ def run_world(cfg):
                         else:
                             pt = [inf["centre"] + r.randint(-15, 15) / 8.0 + 1 / 64 for _ in range(inf["d"])]
                             nx = np.array(pt)
-                        ny = _world_value(pt, inf["centre"], inf["offset"]) - inf["shift"]
-                        ne = (0.0 if r.random() < 0.25 else 0.125) if inf["with_err"] else None
+                        ny = _world_value(pt, inf["centre"], inf["offset"]) * ysc - inf["shift"]
+                        ne = (0.0 if r.random() < 0.25 else 0.125 * ysc) if inf["with_err"] else None
                         step["new"] = {"x": pt, "y": ny, "err": ne}
                         opts[j].add_evaluation(nx, np.array(ny), None if ne is None else np.array(ne))
             except Exception as e:
@@ -903,7 +1280,7 @@ def run_world(cfg):
                     qa = np.array(q)
                     mu_a, sig_a = G.gp(qa)
                     mu, sig = float(mu_a[0]), float(sig_a[0])
-                    if sig > 1e-6 and (inf["acq"] != "EI" or abs((mu - own_max) / sig) <= 7.0):
+                    if sig > 1e-6 * ysc and (inf["acq"] != "EI" or abs((mu - own_max) / sig) <= 7.0):
                         pick = (q, mu, sig)
                         break
                 if pick is not None:
@@ -996,7 +1373,19 @@ def world_configs(tier):
                     events.append({"op": "P", "i": int(w[1:]), "override": r.choice([None, None, "bfgs", "diffev"])})
             cfgs.append({"events": events, "optimizer": optimizer, "mode": mode,
                          "word": " ".join(t), "seed": r.randint(1, 10 ** 9)})
+    # units of the objectives: the worlds with the default acquisition everywhere stay at 1, the
+    # mixed ones cycle through 1e-11 .. 1e6 (own random stream; any six consecutive entries hold
+    # a scale <= 1e-8 and a scale >= 1e3)
+    rs = C.rng_for(PROP, "world-scale")
+    rot, m = rs.randrange(len(WORLD_Y_SCALES)), 0
+    for c in cfgs:
+        if c["mode"] == "mixed":
+            c["y_scale"] = WORLD_Y_SCALES[(m + rot) % len(WORLD_Y_SCALES)]
+            m += 1
     return cfgs
+
+
+WORLD_Y_SCALES = [1e-11, 1e6, 1.0, 1e-8, 1.0, 1e3, 1e-4, 1.0, 1e-10, 1e3]
 
 
 def _qrows(rows):
@@ -1090,20 +1479,22 @@ def world_findings(res):
                     bad.append(("C18/acquisition/" + kind, f"{after}: acquisition of optimiser {j} failed at its query point "
                                 f"{v['q']}: {v['error']}"))
                 elif v["skipped"] is None:
-                    tol = 1e-6 * abs(v["ref"]) if kind == "EI" else 1e-9 * (abs(v["mu"]) + abs(inf["kappa"] * v["sig"]) + v["sig"] ** 2)
+                    tol = (1e-6 * abs(v["ref"]) if kind == "EI" else
+                           1e-9 * (abs(v["mu"]) + abs(inf["kappa"] * v["sig"])) if kind == "UCB" else 1e-9 * v["sig"] ** 2)
                     name = {"EI": "E max(f - ymax, 0)", "UCB": "mu + kappa sigma", "MV": "sigma^2"}[kind]
                     if not (abs(v["call"] - v["ref"]) <= tol):
                         bad.append(("C18/acquisition/" + kind, f"{after}: {kind}(x) of optimiser {j} at x = {v['q']} is {v['call']!r} "
                                     f"but {name} under its own regressor (mu = {v['mu']!r}, sigma = {v['sig']!r}) and its own "
                                     f"incumbent {v['own_max']!r} is {v['ref']!r}"))
-                    if v["opt_ref"] is not None and not (abs(v["opt"] - v["opt_ref"]) <= (1e-6 if kind == "EI" else 1e-9) * max(1, abs(v["opt_ref"]))):
+                    if v["opt_ref"] is not None and not (abs(v["opt"] - v["opt_ref"]) <= (1e-6 * max(1, abs(v["opt_ref"])) if kind == "EI" else tol)):
                         bad.append(("C18/acquisition/" + kind, f"{after}: opt_func(x) of optimiser {j} is {v['opt']!r} but the "
                                     f"objective under its own regressor and incumbent is {v['opt_ref']!r}"))
-                    if v["optg"] != v["opt"] and not (abs(v["optg"] - v["opt"]) <= 1e-9 * max(1, abs(v["opt"]))):
+                    if v["optg"] != v["opt"] and not (abs(v["optg"] - v["opt"]) <= (1e-9 * max(1, abs(v["opt"])) if kind == "EI" else tol)):
                         bad.append(("C18/acquisition/" + kind, f"{after}: opt_func_gradient value {v['optg']!r} differs from opt_func {v['opt']!r} (optimiser {j})"))
                     if v["grad_ref"] is not None:
                         for c, (g, gr) in enumerate(zip(v["grad"], v["grad_ref"])):
-                            sc = abs(v["dmu"][c]) + abs(0.5 * inf["kappa"] * v["dvar"][c] / v["sig"]) + abs(v["dvar"][c])
+                            sc = (abs(v["dmu"][c]) + abs(0.5 * inf["kappa"] * v["dvar"][c] / v["sig"]) if kind == "UCB"
+                                  else abs(v["dvar"][c]))
                             if not (abs(g - gr) <= 1e-9 * sc):
                                 bad.append(("C18/acquisition/" + kind, f"{after}: gradient[{c}] of optimiser {j} is {g!r}, "
                                             f"the gradient of its own objective is {gr!r}"))
@@ -1188,6 +1579,21 @@ def world_goals(results, tier):
 
 
 # ============================================================ driver
+SCALE_THEOREMS = ["C18_units_covariance", "C18_sigma_floor_refuted", "C18_sigma_floor_invisible_above",
+                  "C18_promotion_exact", "C18_typed_add_evaluation_spec", "C18_typed_add_all_spec",
+                  "C18_typed_refines_untyped", "C18_cast_to_data_dtype_refuted"]
+
+
+def _audit_job(theorems):
+    """Pool worker: Check + Print Assumptions of Properties/C18Scale.v."""
+    try:
+        return {"ok": C.coq_audit(PROP + "_scale", theorems, "IT.Properties.C18Scale")}
+    except C.ProofFailure as e:
+        return {"what": e.what, "log": e.log}
+    except Exception as e:      # noqa: BLE001
+        return {"what": f"audit of IT.Properties.C18Scale crashed: {e!r}", "log": ""}
+
+
 def run(rep: C.Report, tier: str) -> int:
     C.clean_gen(PROP)
     C.prove_and_audit(rep, PROP, THEOREMS)
@@ -1202,24 +1608,35 @@ def run(rep: C.Report, tier: str) -> int:
         rep.violation("C18/proof", f"proof obligation no longer checks: {_e.what}",
                       {"theorem_or_correspondence": _e.what, "log": _e.log[-1000:]}, False)
 
+    # units of the objective, element types of the data (Properties/C18Scale.v): audited by a pool
+    # worker (below) while the implementation is run; collected before the sequences are judged.
+    # (Not a thread: the pool forks its workers, and a fork while a thread sits in subprocess can
+    # leave a worker dead-locked.)
+
     # start the optimiser lives first (they run in worker processes meanwhile)
-    cfgs = sequence_configs(tier)
+    cfgs = sequence_configs(tier) + dtype_sequence_configs(tier)
     wcfgs = world_configs(tier)
     pool = ProcessPoolExecutor(max_workers=14)
+    _audit_fut = pool.submit(_audit_job, SCALE_THEOREMS)
+    scaled = scaled_setup(tier, pool)                       # short hyper-parameter fits
     wfuts = [pool.submit(run_world, c) for c in wcfgs]      # the longer lives first
     futs = [pool.submit(run_sequence, c) for c in cfgs]
 
     # ---- (a) acquisition values and gradients
     import time as _t
     t0 = _t.time()
-    recs, goals = acquisition_points(rep, tier)
+    recs, goals = acquisition_points(rep, tier, scaled)
     rep.coverage["t_acq_impl_s"] = round(_t.time() - t0, 1)
     # the definition E max(f - ymax, 0), enclosed inside Coq, on a sample of EI points
-    ei_idx = [k for k, rc in enumerate(recs) if rc["acq"] == "EI" and "error" not in rc]
+    ei_idx = [k for k, rc in enumerate(recs) if rc["acq"] == "EI" and "error" not in rc and "yscale" not in rc]
     step = max(1, len(ei_idx) // (8 if tier == "quick" else 40))
     for k in ei_idx[::step]:
         rc = recs[k]
         goals.append(definition_goal(f"{k}_definition", rc["mu"], rc["sig"], rc["ymax"], rc["call"]))
+    # ... and on the first EI point of every regressor fitted to y-values in other units
+    for k, rc in enumerate(recs):
+        if rc.get("want_definition") and "error" not in rc:
+            goals.append(definition_goal(f"{k}_definition", rc["mu"], rc["sig"], rc["ymax"], rc["call"]))
     # the worlds are done by now (a few seconds of work in the pool): their interval goals go
     # into the same batch
     wresults = [f.result() for f in wfuts]
@@ -1326,19 +1743,36 @@ def run(rep: C.Report, tier: str) -> int:
                        {"theorem_or_correspondence": "Model.Optimiser.check_starts_case",
                         "case": {"kind": "starts", "meta": m}}), found)
 
+    _a = _audit_fut.result()
+    if "ok" in _a:
+        rep.obligation(True, len(SCALE_THEOREMS))
+        rep.coverage["scale_typed_audit"] = _a["ok"]
+    else:
+        rep.obligation(False, len(SCALE_THEOREMS))
+        rep.violation("C18/proof", f"proof obligation no longer checks: {_a['what']}",
+                      {"theorem_or_correspondence": _a["what"], "log": _a["log"][-1000:]}, False)
+
     # ---- (c) sequences
     rep.coverage["t_before_seq_s"] = round(_t.time() - t0, 1)
     results = [f.result() for f in futs]
     rep.coverage["t_seq_done_s"] = round(_t.time() - t0, 1)
     pool.shutdown()
     acases, aidx = [], []
+    tcases, tidx = [], []
     for i, res in enumerate(results):
         cfg = res["cfg"]
         rep.case(("seq", json.dumps(cfg, sort_keys=True)))
         rep.count(f"seq optimizer={cfg['optimizer']}")
         rep.count(f"seq len={len(cfg['ops'])}")
         rep.count(f"seq d={cfg['d']} acq={cfg['acq']}")
-        rep.count(f"seq x={cfg['x_kind']} new_x={cfg['newx_kind']}")
+        if "x_dtype" in cfg:
+            rep.count(f"seq initial x dtype={cfg['x_dtype']} y dtype={cfg['y_dtype']}")
+            rep.count(f"seq y-scale={cfg['y_scale']:g}")
+            for e_ in res["events"]:
+                if e_["op"] == "A":
+                    rep.count(f"seq data {e_.get('data_dtype')} + new_x {e_['kind']}/{e_.get('new_x_dtype')}")
+        else:
+            rep.count(f"seq x={cfg['x_kind']} new_x={cfg['newx_kind']}")
         finds = sequence_findings(res)
         seen = set()
         for key, what in finds:
@@ -1350,6 +1784,13 @@ def run(rep: C.Report, tier: str) -> int:
             for t in add_case_texts(res):
                 acases.append(t)
                 aidx.append(i)
+            tt = typed_case_texts(res)
+            if tt is None:
+                rep.count("seq with an element type outside Model.OptimiserTyped (no typed case)")
+            else:
+                for t in tt:
+                    tcases.append(t)
+                    tidx.append(i)
     rep.coverage["sequences"] = len(results)
     rep.coverage["proposals"] = sum(1 for r_ in results for e in r_["events"] if e["op"] == "P")
     rep.coverage["additions"] = sum(1 for r_ in results for e in r_["events"] if e["op"] == "A")
@@ -1360,7 +1801,15 @@ def run(rep: C.Report, tier: str) -> int:
         files.append(C.write_case_file(PROP, f"add_{i // CH}", CASE_HEADER, body,
                                        ["failing check_add_case cases 0"]))
         index.append(aidx[i:i + CH])
-    for p, idx, (ok, res, log) in zip(files, index, C.run_case_files(files, jobs=6)):
+    # the same lives against Model.OptimiserTyped (files evaluated together with the add_* ones)
+    tfiles, tindex = [], []
+    for i in range(0, len(tcases), CH):
+        body = ("Definition cases : list typed_add_case :=\n " + C.clist(tcases[i:i + CH], ";\n ") + ".")
+        tfiles.append(C.write_case_file(PROP, f"tadd_{i // CH}", TYPED_HEADER, body,
+                                        ["failing check_typed_add_case cases 0"]))
+        tindex.append(tidx[i:i + CH])
+    _both = C.run_case_files(files + tfiles, jobs=8)
+    for p, idx, (ok, res, log) in zip(files, index, _both[:len(files)]):
         if not ok or 0 not in res:
             rep.obligation(False)
             rep.violation("C18/add-run", f"case file {p.name} did not evaluate",
@@ -1380,6 +1829,38 @@ def run(rep: C.Report, tier: str) -> int:
                           ({"case": {"kind": "sequence", "cfg": r_["cfg"]}} if visible else
                            {"theorem_or_correspondence": "Model.Optimiser.check_add_case",
                             "case": {"kind": "sequence", "cfg": r_["cfg"]}}), visible)
+    # the same lives against Model.OptimiserTyped: element types of the arrays after every addition
+    # (numpy's promoted type) and the data, exactly
+    tseen = set()
+    for p, idx, (ok, res, log) in zip(tfiles, tindex, _both[len(files):]):
+        if not ok or 0 not in res:
+            rep.obligation(False)
+            rep.violation("C18/typed-add-run", f"case file {p.name} did not evaluate",
+                          {"theorem_or_correspondence": p.name, "log": log}, False)
+            continue
+        rep.obligation(True)
+        for j in res[0]:
+            if idx[j] in tseen:
+                continue
+            tseen.add(idx[j])
+            if len(tseen) > 3:
+                break
+            r_ = results[idx[j]]
+            adds = [e for e in r_["events"] if e["op"] == "A" and "state" in e]
+            lost = [e for e in adds if e["stored_x"] != e["new_x"] or e["stored_y"] != e["new_y"]]
+            if lost:
+                e = lost[0]
+                what = (f"the evaluation y = {e['new_y']!r} made at x = {e['new_x']} is stored as y = {e['stored_y']!r} at "
+                        f"x = {e['stored_x']} (data {e.get('data_dtype')}, new_x {e['kind']} / {e.get('new_x_dtype')}); "
+                        "differs from Model.OptimiserTyped.typed_add_all")
+            else:
+                what = ("element types after add_evaluation differ from numpy's promotion (Model.OptimiserTyped.typed_add_all): "
+                        + "; ".join(f"{e.get('data_dtype')} + {e.get('new_x_dtype')} -> {e['state']['x_dtype']}" for e in adds[:4]))
+            rep.violation("C18/add_evaluation-typed", what,
+                          ({"case": {"kind": "sequence", "cfg": r_["cfg"]}} if lost else
+                           {"theorem_or_correspondence": "Model.OptimiserTyped.check_typed_add_case",
+                            "case": {"kind": "sequence", "cfg": r_["cfg"]}}), bool(lost))
+    rep.coverage["typed_traces_validated_against_impl"] = len(tcases)
     rep.coverage["traces_validated_against_impl"] = len(acases)
     if results:
         rep.sample({"sequence": results[0]["cfg"], "events": results[0]["events"][:2]})
@@ -1463,6 +1944,9 @@ def run(rep: C.Report, tier: str) -> int:
         "(goal *_definition)",
         "scipy.optimize (L-BFGS-B, differential_evolution) keeping iterates inside the bounds is "
         "observed [R], not proved",
+        "element types: int16/32/64 and float32/64 with numpy's promotion table (Model.OptimiserTyped.promote); "
+        "values beyond 2^53 in magnitude (where numpy's int64 -> float64 promotion rounds), unsigned and 8-bit "
+        "integer coordinates (the kernels' integer overflow is C02's D42) are outside the model and not generated",
         "several optimisers: object identity of acquisition objects / regressors is modelled by heap "
         "indices (Model.OptimiserWorld); a caller handing ONE acquisition instance to two optimisers "
         "is outside the theorem (hypothesis unshared_run) and is not generated",
@@ -1471,7 +1955,7 @@ def run(rep: C.Report, tier: str) -> int:
     return rep.finish(
         level="proof",
         checker_cmd="make -C /verif/coq (coqc 8.16.1) + coqc on coq/gen/C18/acq_*.v (coq-interval "
-                    "integral/interval) + coq/gen/C18/{starts,add,world}_*.v (vm_compute)",
+                    "integral/interval) + coq/gen/C18/{starts,add,tadd,world}_*.v (vm_compute)",
         trusted_base=C.KERNEL_TB + ["coq-interval 4.x reflexive evaluator (Uint63/Bignums primitives)",
                                     "axioms: " + (", ".join(ax) if ax else "none")],
         rule="EI/UCB/MaxVariance at random query points of real fitted GpRegressors (d = 1..3), EI "
@@ -1483,7 +1967,14 @@ def run(rep: C.Report, tier: str) -> int:
              "every run), EI with incumbent exactly 0.0; worlds of 2..3 optimisers alive in one process "
              "(default acquisition everywhere in four fixed interleavings, default / class / caller-made "
              "instance mixed in random ones, data maxima of exactly 0.0, propose with optimizer override), "
-             "every optimiser observed after every operation; distinct = distinct (kind, inputs)")
+             "every optimiser observed after every operation; the objective in other units: regressors "
+             "fitted to y-values of order {1e-11,1e-10,3e-10} / {1e-8,1e-6,1e-4} / {1e3,1e6} (one of each "
+             "group per quick run, all of them in two dimensions each thorough) with tail / ordinary / natural incumbents, mixed "
+             "worlds and typed lives cycling through y-scales 1e-11..1e6; lives with initial x as int64 / "
+             "int32 / int16 arrays, lists / tuples of Python ints, float32 arrays (each twice per quick run), "
+             "y as float64 / int64 / Python ints / float32, additions as float64 array / Python floats / "
+             "tuple / numpy scalar / view / row / float32 array / Python ints / int64 array / proposal; "
+             "distinct = distinct (kind, inputs)")
 
 
 # ============================================================ replay
